@@ -26,10 +26,10 @@ P = {
  "C07": ("all payload strings up to length k over an adversarial alphabet x every string position x 3 dialects, plus every triple of payloads over three string slots, non-interference under an independent SQL lexer", "§3 C07",
          "exhaustive payload enumeration; SQL token stream outside the one string literal must be payload-independent; SQLite output executed against a canary",
          "R-SQL lexer models standard SQL string/identifier/comment lexing"),
- "C08": ("all ORM filter skeletons k<=2 x all pairs of adversarial literal assignments; compiled SQL must be identical", "§3 C08",
+ "C08": ("all ORM filter skeletons k<=2 x all pairs of adversarial literal assignments; compiled SQL must be identical; strings that look like regex flags, anchors, wildcards, keywords, numbers, dates or bind templates in every string position incl. matchesPattern", "§3 C08",
          "compiled SQL text/params of Django and SQLAlchemy compared across literal assignments",
          "Django/SQLAlchemy compilers report the SQL and parameters they would send"),
- "C09": ("typed terms with unique leaves x 3 dialects x alias, parsed by independent SQL parser, span preservation; SQLite dialect statements prepared in SQLite; duration literals read component by component; keyword literals in every letter case; repeated list members; non-ASCII field names; non-ASCII digit spellings", "§3 C09",
+ "C09": ("typed terms with unique leaves x 3 dialects x alias, parsed by independent SQL parser, span preservation; SQLite dialect statements prepared in SQLite; duration literals read component by component; keyword literals in every letter case; repeated list members; non-ASCII field names; non-ASCII digit spellings; date-time literals read back component by component; table-alias spellings; every operand translated alone is one subtree of the translation of its context", "§3 C09",
          "exhaustive enumeration up to k constructor nodes; the emitted SQL must parse and mirror the filter tree",
          "R-SQL parser implements standard SQL precedence"),
  "C10": ("all atom strings up to k, BFS over LR configurations, constructor closure over abstract AST shapes, pumped cycles, all single edits", "§3 C10",
@@ -38,10 +38,10 @@ P = {
  "C11": ("exhaustive (name x arity x argument kind) matrix vs pinned OData function table", "§3 C11",
          "all built-in names and near misses x counts 0..5 x argument kinds; accept/reject and exception fields compared with a pinned table",
          "the pinned copy of the OData function table"),
- "C12": ("(node kind x position x backend) matrix incl. null / list / overflow operands and named parameters, refusal-then-reuse histories on one visitor, duration components, outcome classification", "§3 C12",
+ "C12": ("(node kind x position x backend) matrix incl. null / list / overflow operands and named parameters, refusal-then-reuse histories on one visitor, duration and date-time literal components, outcome classification", "§3 C12",
          "every two-level well-typed term through 7 backends; outcome must be complete output or library exception",
          "completeness is judged by leaf/operator presence in the output"),
- "C13": ("parser image up to k operator nodes + compound leaves: parse(render(t)) == t", "§3 C13",
+ "C13": ("parser image up to k operator nodes + compound leaves (incl. qualified parameter names): parse(render(t)) == t", "§3 C13",
          "exhaustive trees as in C05 with string contents over a quote/percent alphabet; round trip through the real renderer and parser",
          "none beyond the enumeration bound"),
  "C14": ("trees x alias maps vs scoping-aware reference substitution; composition of rewrites; all schedules (preemption-bounded, switch before every node visit) of two visits on one shared rewriter", "§3 C14",
